@@ -213,6 +213,32 @@ def check_struct(case):
                 viols.append(('struct:scale-phase', '%s: phase/frequency change under rescaling by %g' % (tag, sc)))
             if not oka:
                 viols.append(('struct:scale-amp', '%s: amplitude is not multiplied by %g under rescaling' % (tag, sc)))
+    # the phase routine called directly (it is a public function): its default / 'wrapped' return is the wrapped form of
+    # its 'unwrapped' return, with and without smoothing, and is the phase frequency_transform reports for 'hilbert'
+    if m == 'hilbert' and base is not None:
+        from emd.spectra import phase_from_complex_signal
+        from scipy import signal as _sig
+        an = _sig.hilbert(X, axis=0)
+        for sm in (None, 5):
+            try:
+                w0 = np.asarray(phase_from_complex_signal(an.copy(), smoothing=sm))
+                w1 = np.asarray(phase_from_complex_signal(an.copy(), smoothing=sm, ret_phase='wrapped'))
+                u1 = np.asarray(phase_from_complex_signal(an.copy(), smoothing=sm, ret_phase='unwrapped'))
+                ipx = np.asarray(frequency_transform(X.copy(), sr, 'hilbert', smooth_phase=sm)[0])
+            except Exception as e:
+                viols.append(('phase-direct:raise:%s' % type(e).__name__, '%s smoothing=%r raised %r' % (tag, sm, e)))
+                continue
+            trans += 4
+
+            def same_angle(a, b):
+                return a.shape == b.shape and np.max(np.abs(np.angle(np.exp(1j * (a - b))))) <= 1e-9
+            if not (same_angle(w0, w1) and same_angle(w1, u1)):
+                viols.append(('phase-direct:wrapped-vs-unwrapped', '%s smoothing=%r: the wrapped return of phase_from_complex_signal is not the '
+                              'wrapped form of its unwrapped return' % (tag, sm)))
+            elif not same_angle(w1, ipx):
+                viols.append(('phase-direct:vs-transform', '%s smoothing=%r: phase_from_complex_signal differs from the phase of frequency_transform' % (tag, sm)))
+            elif not (np.all(w0 >= 0) and np.all(w0 < 2 * np.pi)):
+                viols.append(('phase-direct:range', '%s smoothing=%r: wrapped phase outside [0, 2pi)' % (tag, sm)))
     # amplitude normalisation (used by nht / quad)
     if m == 'nht':
         for clip in (False, True):
